@@ -319,13 +319,14 @@ def run_pool(M, ids, rng, cvrs):
 
 
 def assort_table(asn, objs):
-    tab, errs = [], 0
-    for o in objs:
+    """assort() of every record; a record on which it raises gets 0 and is listed in errs"""
+    tab, errs = [], []
+    for k, o in enumerate(objs):
         try:
             tab.append(C.frac(fl(asn.assorter.assort(o))))
-        except Exception:  # noqa  (old has_one_vote KeyError)
+        except Exception as e:  # noqa  (e.g. the old has_one_vote KeyError on a ballot lacking the contest)
             tab.append(F(0))
-            errs += 1
+            errs.append((k, f"{type(e).__name__}: {e}"))
     return tab, errs
 
 
@@ -508,6 +509,18 @@ def run_world(rng, spec):
         # ------------------------------------------------------------------ oracles on the implementation alone
         wjson = lambda: world_json(spec, cvrs, mvrs, contests, sample, extra={"contest": cid, "assertion": a})
         out["runs"] += 1
+        # C03: the assorter must be defined on the records the identity is about
+        if aerrs and con["atype"] != "POLLING":
+            for k, msg in aerrs:
+                i = k if k < n else k - n
+                in_scope = (not s_style) or cvrs[i].has_contest(cid)
+                needed = in_scope and (k < n or not (mvrs[i].phantom or (s_style and not mvrs[i].has_contest(cid))))
+                if needed:
+                    out["oracle"].append({"what": "the assorter raises on a record under audit, so its overstatement is undefined",
+                                          "input": wjson(), "observed": {"record": ("cvr" if k < n else "mvr"), "index": i,
+                                                                         "error": msg, "use_style": s_style},
+                                          "signature": "C03:assorter-raises", "prop": "C03"})
+                    break
         # C03: identity over all cards under audit
         consistent = (mode == 0 or (impl_means[0] == "ok" and m_style == s_style)) and margin_given is None and not aerrs
         if consistent and con["atype"] != "POLLING":
